@@ -82,8 +82,34 @@ def rule_cfg(ctx, M, u):
               sample={"callee": subs[0].callee.cpath if subs else None})
 
 
+def rule_fresh_tables(ctx, M):
+    """A fresh waker / readiness table has every bit set: creating one anywhere but in a constructor re-arms every child
+    (and detaches the wakers already handed out)."""
+    F = M.F
+    ctor_names = {"new", "with_capacity", "default", "from_parts", "join", "try_join", "merge", "zip", "from_iter", "readiness"}
+    n = 0
+    for b in F.bodies:
+        if b.kind in ("Const", "AnonConst") or b.n > 5000:
+            continue
+        interesting = False
+        for blk, t in b.calls():
+            f = t["func"]
+            if "indirect" not in f and f["name"] == "new" and f.get("impl_self") is not None:
+                ty = F.types[f["impl_self"]]
+                if ty["k"] == "adt" and simple_name(ty["cpath"]) in scan.READY + scan.WAKERS:
+                    interesting = True
+        if not interesting:
+            continue
+        n += 1
+        root_name = b.root_name or b.name
+        ok = b.name in ctor_names or root_name in ctor_names
+        ctx.check(ok, "C16.ARMERS", b.def_, "waker / readiness tables (all bits set) are created only by constructors", site=b.span)
+    return n
+
+
 def rule_armers(ctx, M, units):
     F = M.F
+    rule_fresh_tables(ctx, M)
     unit_by_def = {u.body.def_: u for u in units}
     for b in F.bodies:
         if b.kind in ("Const", "AnonConst") or b.n > 5000:
